@@ -96,10 +96,21 @@ def run(pid, cfg, tier, seed, replay, ck):
         cmd = [b("connectconformance"), "-v", "--trace"] + (extra or []) + args
         logp = os.path.join(wd, f"{run_name}{tag}.log")
         t = time.time()
+        # a run that hangs (the runner or a peer wedged) must end as a verdict, not as a check that
+        # never returns: complete runs get 20 min (thorough: 60), isolated re-runs 6 min (thorough: 15);
+        # the whole process group is killed so that no peer is left behind
+        limit = (3600 if tier == "thorough" else 1200) if not tag else (900 if tier == "thorough" else 360)
         with open(logp, "w") as f:
+            pr = subprocess.Popen(cmd, stdout=f, stderr=subprocess.STDOUT, cwd=wd, start_new_session=True)
             try:
-                rc = subprocess.run(cmd, stdout=f, stderr=subprocess.STDOUT, timeout=3600, cwd=wd).returncode
+                rc = pr.wait(timeout=limit)
             except subprocess.TimeoutExpired:
+                import signal
+                try:
+                    os.killpg(pr.pid, signal.SIGKILL)
+                except ProcessLookupError:
+                    pass
+                pr.wait()
                 rc = -9
         text = open(logp, errors="replace").read()
         r = parse_log(text)
@@ -170,6 +181,10 @@ def run(pid, cfg, tier, seed, replay, ck):
                 ex2 += ["--run", name]
             rr, tt = one(run_name, a2, extra=ex2, tag=f".rerun{k}")
             rerun_log.append({"run": run_name, "names": len(persistent), "attempt": k, "exit": rr["exit"], "failed": rr["failed"], "total": rr["total"]})
+            if rr["exit"] == -9:
+                # the isolated re-run hung: that is a finding in itself, not noise to be retried
+                problems.append("an isolated re-run of the failing permutations did not end within its time limit (the runner or a peer hangs)")
+                break
             if not rr["total"]:
                 continue  # the re-run itself did not complete: everything stays suspect
             still = set(rr["failed_names"])
